@@ -138,7 +138,7 @@ def differential(ctx, name, path, data, seeds, nsteps):
     ok, env2 = call_real(factory_env_from_data, data)
     okf2, env_file2 = call_real(factory_env_from_yaml, path)
     ctx.hit('independent_builds')
-    if okf2 and (env_file2 is env_file or env_file2._reset_function is None):
+    if okf2 and env_file2 is env_file:
         ctx.violation('build', 'build.not_repeatable_shared_object',
                       f'{name}: building the same file twice returned the same environment object', 'diff_case', payload)
     ok3, ref = call_real(compose.build_env, snapshot)
